@@ -1,5 +1,5 @@
 #!/usr/bin/env python3
-"""Regenerate the table of seeded changes at the end of DESIGN.md (section 11.7) from seeded/*/meta.json."""
+"""Regenerate the table of seeded changes at the end of DESIGN.md (section 11.8) from seeded/*/meta.json."""
 import json, glob, os, re
 ROOT = os.path.dirname(os.path.dirname(os.path.abspath(__file__)))
 p = os.path.join(ROOT, 'DESIGN.md'); s = open(p).read()
